@@ -34,6 +34,12 @@ Fixpoint b64_encode (b : list N) : str :=
       :: b64_char (z mod 64) :: b64_encode r
   end.
 
+(** contours without points are skipped by the writer (and dropped by the reader) *)
+Definition has_points (c : contour) : bool := match cpoints c with [] => false | _ => true end.
+Definition drop_empty (g : glyph) : glyph :=
+  mkGlyph (gname g) (gwidth g) (gheight g) (gcps g) (gnote g) (gimage g) (gguides g) (ganchors g)
+          (gcomps g) (filter has_points (gcontours g)) (glib g).
+
 (** no line break in any string or key of a plist value *)
 Definition no_newline (s : str) : bool := negb (existsb (N.eqb 10) s).
 Fixpoint pv_plain (v : pv) : bool :=
@@ -160,7 +166,7 @@ Section Encoder.
     let a2 := fold_left (fun acc x => dump1 (guid x) (gulib x) acc) (gguides g) a1 in
     let a3 := fold_left (fun acc c =>
                            fold_left (fun acc p => dump1 (pid p) (plib p) acc) (cpoints c)
-                                     (dump1 (cid c) (clib c) acc)) (gcontours g) a2 in
+                                     (dump1 (cid c) (clib c) acc)) (filter has_points (gcontours g)) a2 in
     fold_left (fun acc c => dump1 (coid c) (colib c) acc) (gcomps g) a3.
 
   (** the dictionary handed to the plist printer: the glyph lib plus the object libs *)
@@ -174,11 +180,12 @@ Section Encoder.
       | _ => Ok [Elem (s2l "lib") [] [pv_node (PDict (sort_keys_rec lib))]]
       end).
 
-  (** the outline element is written when there is a contour or a component *)
+  (** the outline element is written when there is a contour with points or a component;
+      contours without points are not written *)
   Definition enc_outline (cs : list contour) (ks : list component) : list node :=
-    match cs, ks with
+    match filter has_points cs, ks with
     | [], [] => []
-    | _, _ => [Elem (s2l "outline") [] (map enc_contour cs ++ map enc_component ks)]
+    | cs', _ => [Elem (s2l "outline") [] (map enc_contour cs' ++ map enc_component ks)]
     end.
 
   (** [encode_xml_impl] *)
@@ -208,7 +215,8 @@ Definition libs_plain (g : glyph) : bool :=
   pv_plain (PDict (glib g)) &&
   forallb (fun a => olib_plain (alib a)) (ganchors g) &&
   forallb (fun x => olib_plain (gulib x)) (gguides g) &&
-  forallb (fun c => olib_plain (clib c) && forallb (fun p => olib_plain (plib p)) (cpoints c)) (gcontours g) &&
+  forallb (fun c => olib_plain (clib c) && forallb (fun p => olib_plain (plib p)) (cpoints c))
+          (filter has_points (gcontours g)) &&
   forallb (fun c => olib_plain (colib c)) (gcomps g).
 Definition note_survives (n : option str) : bool :=
   match n with
@@ -219,6 +227,3 @@ Definition note_survives (n : option str) : bool :=
     begins or ends with a blank *)
 Definition c02_f3 (o : wopts) (g : glyph) : bool :=
   (negb (Nat.eqb (o_count o) 0) && negb (libs_plain g)) || negb (note_survives (gnote g)).
-Definition c02_empty_contour (g : glyph) : bool :=
-  existsb (fun c => match cpoints c with [] => true | _ => false end) (gcontours g).
-
